@@ -46,15 +46,18 @@ package support
 //@ func (*defaultDefinitionRegistry).GetMetaByName
 //@ implements container.DefinitionRegistry
 
-// The singleton registry maps component names to registered components; an existing entry is never replaced.
+// The singleton registry maps component names to registered components; an existing entry is never replaced, and a
+// second, different component under a name that is taken never gets a normal return (Panicf, A-LOG-PANIC): which of
+// two same-named components wins can therefore not depend on registration order (C10).
 //@ func (*registry).RegisterSingleton
-//@ property C07
+//@ property C07 C10
 //@ requires [registry-built] r.componentsMap != nil
 //@ requires [plain-component] singleton != nil && !typeIs(singleton, reflect.Value) && !implements(singleton, reflect.Type)
 //@ assigns r.componentsMap.Dom, r.componentsMap.Val
 //@ ensures [no-two-under-one-name] forall(k, string, implies(r.componentsMap.Dom[k], (old(r.componentsMap.Dom[k]) && r.componentsMap.Val[k] == old(r.componentsMap.Val[k])) || (k == NameOf(singleton) && !old(r.componentsMap.Dom[k]) && r.componentsMap.Val[k] == singleton)))
 //@ ensures [existing-kept] forall(k, string, implies(old(r.componentsMap.Dom[k]), r.componentsMap.Dom[k] && r.componentsMap.Val[k] == old(r.componentsMap.Val[k])))
 //@ ensures [registered-under-its-name] r.componentsMap.Dom[NameOf(singleton)]
+//@ ensures [duplicate-name-rejected] implies(old(r.componentsMap.Dom[NameOf(singleton)]), old(r.componentsMap.Val[NameOf(singleton)]) == singleton)
 
 //@ func (*registry).GetSingleton
 //@ property C07
